@@ -36,11 +36,16 @@
 (*   "sort"   permuted frame with two pixel arrays -> sort() | sort_by()   *)
 (*            -> to_dense() (boolean mask because two arrays are present)  *)
 (*   "thresh" frame -> threshold(t) = mask(intensity > t) -> to_dense()    *)
+(*            and, on a frame with a second array, threshold(t,            *)
+(*            name="labels") = mask(labels > t): both arrays follow        *)
+(*   every program that ends in a frame then runs to_dense a second time   *)
+(*   with the intensity ARRAY as argument (TD2_*, result dn2)              *)
 (*                                                                         *)
 (* Variables: prog, pc (program counter), inp (immutable inputs),          *)
 (*   L (kernel scalars mi mj idx k es ed ret), nrow ci cj cv (w / i,row /  *)
 (*   j,col / val), rowsdone (rows finished in the current parallel loop),  *)
-(*   fr (the sparse_frame object), order, bmask, dense, res, acc.          *)
+(*   fr (the sparse_frame object), order, bmask, dense, res, dn2 (dense    *)
+(*   image of the second to_dense pass), acc.                              *)
 (*                                                                         *)
 (* Invariants (checked by TLC in every reachable state):                   *)
 (*   InBounds      every index within the declared extent                  *)
@@ -59,7 +64,11 @@
 (*   SortTotal     sort()/sort_by() return (FIXED = FALSE models the       *)
 (*                 tree's `self.reorder(self, order)` which raises:        *)
 (*                 design finding F7)                                      *)
-(*   ThreshOK      threshold keeps exactly the pixels > t, in order        *)
+(*   ThreshOK      threshold keeps exactly the pixels whose named array    *)
+(*                 is > t, in order, every array attached to its pixel     *)
+(*   DenseTotal    to_dense(<array>) returns (TDFIXED = FALSE models the   *)
+(*                 tree: `data in self.pixels` hashes the array and raises *)
+(*                 TypeError - the docstring's own example)                *)
 (*   Emit          prints one JSON case per finished behaviour ("@@...")   *)
 (* Bounds / configurations:                                                *)
 (*   SparseCoo_q.cfg    masks 2x3 1x5 5x1 (nnz right and nnz+1); images    *)
@@ -69,6 +78,14 @@
 (*   SparseCoo_t.cfg    + 3x3 masks, 2x3 / 3x1 cuts, 2x3 sequences, 2x3    *)
 (*                      and 1x4 permutations, 2x3 thresholds               *)
 (*   SparseCoo_asis.cfg FIXED = FALSE: TLC must report SortTotal violated  *)
+(*   SparseCoo_asis_td.cfg TDFIXED = FALSE: TLC must report DenseTotal     *)
+(*                      violated                                           *)
+(* Harness-only instance families (the model is covariant in them; see     *)
+(* harness/c14_replay.py): mask dtypes / true values, pixel dtypes, value  *)
+(* variants = order-preserving maps of the grey levels and cuts (top of    *)
+(* each dtype, NEGATIVE float images and cuts, cuts that are no binary32   *)
+(* numbers, fractional cuts for uint32), thread counts, caller supplied    *)
+(* `out` arrays full of a poison value, positional / keyword call forms.   *)
 (***************************************************************************)
 EXTENDS Integers, Sequences, FiniteSets, TLC, Json
 
@@ -84,15 +101,19 @@ CONSTANTS
     SortShapes,     \* shapes for program "sort" (all injective sequences of pixels)
     ThreshShapes,   \* shapes for program "thresh"
     ThreshVals,     \* intensities 1..ThreshVals (0 = pixel absent)
-    FIXED           \* TRUE: sort()/sort_by() call self.reorder(order)  (repaired)
+    ThreshNames,    \* subset of {"intensity", "labels"}: threshold(t) and threshold(t, name="labels") on a
+                    \* frame that carries a second pixel array
+    FIXED,          \* TRUE: sort()/sort_by() call self.reorder(order)  (repaired)
+    TDFIXED         \* TRUE: to_dense(<array>) uses the array; FALSE: as in the tree, `data in self.pixels`
+                    \* is evaluated first and raises TypeError for an (unhashable) array
 
 \* LabAt (the sort_by key) is injective on 0..6 only; shape codes are two digits
-ASSUME \A c \in SortShapes : (c \div 10) * (c % 10) <= 7
+ASSUME \A c \in SortShapes \cup ThreshShapes : (c \div 10) * (c % 10) <= 7
 ASSUME \A c \in M2CShapes \cup CutShapes \cup SortShapes \cup ThreshShapes : c \in 11..99
 
-VARIABLES prog, pc, inp, L, nrow, ci, cj, cv, rowsdone, fr, order, bmask, dense, res, acc
+VARIABLES prog, pc, inp, L, nrow, ci, cj, cv, rowsdone, fr, order, bmask, dense, res, dn2, acc
 
-vars == <<prog, pc, inp, L, nrow, ci, cj, cv, rowsdone, fr, order, bmask, dense, res, acc>>
+vars == <<prog, pc, inp, L, nrow, ci, cj, cv, rowsdone, fr, order, bmask, dense, res, dn2, acc>>
 
 Poison == -1
 \* shapes are given in the .cfg files as the code 10*ns + nf (TLC .cfg files have no tuples)
@@ -143,7 +164,7 @@ Take(a, o) == [x \in DOMAIN o |-> a[o[x]]]        \* a[order]
 
 Blank ==
     /\ L = L0 /\ nrow = None /\ ci = None /\ cj = None /\ cv = None /\ rowsdone = {}
-    /\ fr = None /\ order = None /\ bmask = None /\ dense = None /\ res = None /\ acc = {}
+    /\ fr = None /\ order = None /\ bmask = None /\ dense = None /\ res = None /\ dn2 = None /\ acc = {}
 
 InitM2C ==
     \E shc \in M2CShapes : LET sh == Sh(shc) IN \E msk \in [0..(sh[1] * sh[2] - 1) -> {0, 1}] : \E extra \in NnzExtra :
@@ -153,7 +174,7 @@ InitM2C ==
         /\ inp = [ns |-> sh[1], nf |-> sh[2], msk |-> msk, nnz |-> cnt + extra]
         /\ L = L0 /\ nrow = Arr(sh[1], Poison) /\ ci = Arr(cnt + extra, Poison)
         /\ cj = Arr(cnt + extra, Poison) /\ cv = None /\ rowsdone = {}
-        /\ fr = None /\ order = None /\ bmask = None /\ dense = None /\ res = None /\ acc = {}
+        /\ fr = None /\ order = None /\ bmask = None /\ dense = None /\ res = None /\ dn2 = None /\ acc = {}
 
 InitCut ==
     \E shc \in CutShapes : LET sh == Sh(shc) IN \E img \in [0..(sh[1] * sh[2] - 1) -> 0..CutVals] :
@@ -162,7 +183,7 @@ InitCut ==
         /\ inp = [ns |-> sh[1], nf |-> sh[2], img |-> img, msk |-> msk, cut |-> cut, style |-> style]
         /\ L = L0 /\ nrow = None /\ ci = Arr(sh[1] * sh[2], Poison) /\ cj = Arr(sh[1] * sh[2], Poison)
         /\ cv = Arr(sh[1] * sh[2], Poison) /\ rowsdone = {}
-        /\ fr = None /\ order = None /\ bmask = None /\ dense = None /\ res = None /\ acc = {}
+        /\ fr = None /\ order = None /\ bmask = None /\ dense = None /\ res = None /\ dn2 = None /\ acc = {}
 
 InitSorted ==
     /\ SortedGrid > 0
@@ -172,7 +193,7 @@ InitSorted ==
         /\ ci = [x \in 0..(n - 1) |-> s[x] \div Sh(SortedGrid)[2]]
         /\ cj = [x \in 0..(n - 1) |-> s[x] % Sh(SortedGrid)[2]]
         /\ L = L0 /\ nrow = None /\ cv = None /\ rowsdone = {}
-        /\ fr = None /\ order = None /\ bmask = None /\ dense = None /\ res = None /\ acc = {}
+        /\ fr = None /\ order = None /\ bmask = None /\ dense = None /\ res = None /\ dn2 = None /\ acc = {}
 
 \* a frame holding the pixels s[0], s[1], ... (flat indices, distinct) in that order, with the
 \* pixel arrays "intensity" (= the dense test image there) and "labels"
@@ -192,7 +213,7 @@ InitSort ==
         /\ inp = [ns |-> sh[1], nf |-> sh[2], perm |-> s, how |-> how, frame |-> PermFrame(sh, s)]
         /\ fr = PermFrame(sh, s)
         /\ L = L0 /\ nrow = None /\ ci = None /\ cj = None /\ cv = None /\ rowsdone = {}
-        /\ order = None /\ bmask = None /\ dense = None /\ res = None /\ acc = {}
+        /\ order = None /\ bmask = None /\ dense = None /\ res = None /\ dn2 = None /\ acc = {}
 
 \* a sorted frame built from an intensity image v (0 = pixel not in the frame)
 ImgFrame(sh, v) ==
@@ -204,15 +225,24 @@ ImgFrame(sh, v) ==
         names |-> <<"intensity">>,
         px |-> [nm \in {"intensity"} |-> [x \in 0..(Size(s) - 1) |-> v[s[x + 1]]]]]
 
+\* the same frame carrying a second pixel array "labels" (LabAt of the pixel: not monotone in p)
+ImgFrame2(sh, v) ==
+    LET f == ImgFrame(sh, v)
+    IN [f EXCEPT !.names = <<"intensity", "labels">>,
+                 !.px = [nm \in {"intensity", "labels"} |->
+                           IF nm = "intensity" THEN f.px["intensity"]
+                           ELSE [x \in DOMAIN f.row |-> LabAt(f.row[x] * sh[2] + f.col[x])]]]
+
 InitThresh ==
     \E shc \in ThreshShapes : LET sh == Sh(shc) IN \E v \in [0..(sh[1] * sh[2] - 1) -> 0..ThreshVals] :
-    \E t \in 0..(ThreshVals - 1) :
+    \E t \in 0..(ThreshVals - 1) : \E nm \in ThreshNames :
+        LET f0 == IF nm = "intensity" THEN ImgFrame(sh, v) ELSE ImgFrame2(sh, v) IN
         /\ \E p \in DOMAIN v : v[p] > 0
         /\ prog = "thresh" /\ pc = "th_cmp"
-        /\ inp = [ns |-> sh[1], nf |-> sh[2], img |-> v, t |-> t, frame |-> ImgFrame(sh, v)]
-        /\ fr = ImgFrame(sh, v)
+        /\ inp = [ns |-> sh[1], nf |-> sh[2], img |-> v, t |-> t, name |-> nm, frame |-> f0]
+        /\ fr = f0
         /\ L = L0 /\ nrow = None /\ ci = None /\ cj = None /\ cv = None /\ rowsdone = {}
-        /\ order = None /\ bmask = None /\ dense = None /\ res = None /\ acc = {}
+        /\ order = None /\ bmask = None /\ dense = None /\ res = None /\ dn2 = None /\ acc = {}
 
 Init == InitM2C \/ InitCut \/ InitSorted \/ InitSort \/ InitThresh
 
@@ -232,7 +262,7 @@ M2C_Check ==
        ELSE IF inp.nnz < 1 THEN L' = [L EXCEPT !.ret = 3] /\ pc' = "m2c_ret"
        ELSE L' = L /\ pc' = "m2c_cnt_pick"
     /\ acc' = {}
-    /\ UNCHANGED <<prog, inp, nrow, ci, cj, cv, rowsdone, fr, order, bmask, dense, res>>
+    /\ UNCHANGED <<prog, inp, nrow, ci, cj, cv, rowsdone, fr, order, bmask, dense, res, dn2>>
 
 \* line 44-45: some thread takes row mi: nrow[mi] = 0
 M2C_CountRow ==
@@ -242,7 +272,7 @@ M2C_CountRow ==
         /\ nrow' = Wr(nrow, r, 0)
         /\ acc' = {Acc("w", r, inp.ns)}
     /\ pc' = "m2c_cnt_px"
-    /\ UNCHANGED <<prog, inp, ci, cj, cv, rowsdone, fr, order, bmask, dense, res>>
+    /\ UNCHANGED <<prog, inp, ci, cj, cv, rowsdone, fr, order, bmask, dense, res, dn2>>
 
 \* lines 46-49, msk != 0 : nrow[mi]++
 M2C_CountSet ==
@@ -251,14 +281,14 @@ M2C_CountSet ==
     /\ nrow' = Wr(nrow, L.mi, Rd(nrow, L.mi) + 1)
     /\ L' = [L EXCEPT !.mj = L.mj + 1]
     /\ acc' = {Acc("msk", L.mi * inp.nf + L.mj, inp.ns * inp.nf), Acc("w", L.mi, inp.ns)}
-    /\ UNCHANGED <<prog, pc, inp, ci, cj, cv, rowsdone, fr, order, bmask, dense, res>>
+    /\ UNCHANGED <<prog, pc, inp, ci, cj, cv, rowsdone, fr, order, bmask, dense, res, dn2>>
 
 M2C_CountClear ==
     /\ pc = "m2c_cnt_px" /\ L.mj < inp.nf
     /\ Rd(inp.msk, L.mi * inp.nf + L.mj) = 0
     /\ L' = [L EXCEPT !.mj = L.mj + 1]
     /\ acc' = {Acc("msk", L.mi * inp.nf + L.mj, inp.ns * inp.nf)}
-    /\ UNCHANGED <<prog, pc, inp, nrow, ci, cj, cv, rowsdone, fr, order, bmask, dense, res>>
+    /\ UNCHANGED <<prog, pc, inp, nrow, ci, cj, cv, rowsdone, fr, order, bmask, dense, res, dn2>>
 
 M2C_CountRowEnd ==
     /\ pc = "m2c_cnt_px" /\ L.mj >= inp.nf
@@ -266,7 +296,7 @@ M2C_CountRowEnd ==
     /\ pc' = IF rowsdone' = Rows THEN "m2c_cum" ELSE "m2c_cnt_pick"
     /\ L' = IF rowsdone' = Rows THEN [L EXCEPT !.mi = 1] ELSE L
     /\ acc' = {}
-    /\ UNCHANGED <<prog, inp, nrow, ci, cj, cv, fr, order, bmask, dense, res>>
+    /\ UNCHANGED <<prog, inp, nrow, ci, cj, cv, fr, order, bmask, dense, res, dn2>>
 
 \* lines 53-55: cumulative sum
 M2C_Cumsum ==
@@ -274,7 +304,7 @@ M2C_Cumsum ==
     /\ nrow' = Wr(nrow, L.mi, Rd(nrow, L.mi) + Rd(nrow, L.mi - 1))
     /\ L' = [L EXCEPT !.mi = L.mi + 1]
     /\ acc' = {Acc("w", L.mi, inp.ns), Acc("w", L.mi - 1, inp.ns)}
-    /\ UNCHANGED <<prog, pc, inp, ci, cj, cv, rowsdone, fr, order, bmask, dense, res>>
+    /\ UNCHANGED <<prog, pc, inp, ci, cj, cv, rowsdone, fr, order, bmask, dense, res, dn2>>
 
 \* lines 56-58
 M2C_Mismatch ==
@@ -282,14 +312,14 @@ M2C_Mismatch ==
     /\ Rd(nrow, inp.ns - 1) # inp.nnz
     /\ L' = [L0 EXCEPT !.ret = 4] /\ pc' = "m2c_ret"         \* (locals die at return)
     /\ acc' = {Acc("w", inp.ns - 1, inp.ns)}
-    /\ UNCHANGED <<prog, inp, nrow, ci, cj, cv, rowsdone, fr, order, bmask, dense, res>>
+    /\ UNCHANGED <<prog, inp, nrow, ci, cj, cv, rowsdone, fr, order, bmask, dense, res, dn2>>
 
 M2C_Match ==
     /\ pc = "m2c_cum" /\ L.mi >= inp.ns
     /\ Rd(nrow, inp.ns - 1) = inp.nnz
     /\ pc' = "m2c_fill_pick" /\ rowsdone' = {}
     /\ acc' = {Acc("w", inp.ns - 1, inp.ns)}
-    /\ UNCHANGED <<prog, inp, L, nrow, ci, cj, cv, fr, order, bmask, dense, res>>
+    /\ UNCHANGED <<prog, inp, L, nrow, ci, cj, cv, fr, order, bmask, dense, res, dn2>>
 
 \* lines 61-67: a thread takes row mi; idx = start of the row; row with pixels
 M2C_FillRow ==
@@ -300,7 +330,7 @@ M2C_FillRow ==
         /\ L' = [L EXCEPT !.mi = r, !.mj = 0, !.idx = start]
         /\ acc' = {Acc("w", r, inp.ns)} \cup (IF r = 0 THEN {} ELSE {Acc("w", r - 1, inp.ns)})
     /\ pc' = "m2c_fill_px"
-    /\ UNCHANGED <<prog, inp, nrow, ci, cj, cv, rowsdone, fr, order, bmask, dense, res>>
+    /\ UNCHANGED <<prog, inp, nrow, ci, cj, cv, rowsdone, fr, order, bmask, dense, res, dn2>>
 
 \* line 67 false: empty row, nothing to do
 M2C_FillRowEmpty ==
@@ -312,7 +342,7 @@ M2C_FillRowEmpty ==
         /\ rowsdone' = rowsdone \cup {r}
         /\ acc' = {Acc("w", r, inp.ns)} \cup (IF r = 0 THEN {} ELSE {Acc("w", r - 1, inp.ns)})
     /\ pc' = IF rowsdone' = Rows THEN "m2c_ok" ELSE "m2c_fill_pick"
-    /\ UNCHANGED <<prog, inp, nrow, ci, cj, cv, fr, order, bmask, dense, res>>
+    /\ UNCHANGED <<prog, inp, nrow, ci, cj, cv, fr, order, bmask, dense, res, dn2>>
 
 \* lines 68-73
 M2C_FillSet ==
@@ -323,27 +353,27 @@ M2C_FillSet ==
     /\ L' = [L EXCEPT !.mj = L.mj + 1, !.idx = L.idx + 1]
     /\ acc' = {Acc("msk", L.mi * inp.nf + L.mj, inp.ns * inp.nf),
                Acc("i", L.idx, inp.nnz), Acc("j", L.idx, inp.nnz)}
-    /\ UNCHANGED <<prog, pc, inp, nrow, cv, rowsdone, fr, order, bmask, dense, res>>
+    /\ UNCHANGED <<prog, pc, inp, nrow, cv, rowsdone, fr, order, bmask, dense, res, dn2>>
 
 M2C_FillClear ==
     /\ pc = "m2c_fill_px" /\ L.mj < inp.nf
     /\ Rd(inp.msk, L.mi * inp.nf + L.mj) = 0
     /\ L' = [L EXCEPT !.mj = L.mj + 1]
     /\ acc' = {Acc("msk", L.mi * inp.nf + L.mj, inp.ns * inp.nf)}
-    /\ UNCHANGED <<prog, pc, inp, nrow, ci, cj, cv, rowsdone, fr, order, bmask, dense, res>>
+    /\ UNCHANGED <<prog, pc, inp, nrow, ci, cj, cv, rowsdone, fr, order, bmask, dense, res, dn2>>
 
 M2C_FillRowEnd ==
     /\ pc = "m2c_fill_px" /\ L.mj >= inp.nf
     /\ rowsdone' = rowsdone \cup {L.mi}
     /\ pc' = IF rowsdone' = Rows THEN "m2c_ok" ELSE "m2c_fill_pick"
     /\ acc' = {}
-    /\ UNCHANGED <<prog, inp, L, nrow, ci, cj, cv, fr, order, bmask, dense, res>>
+    /\ UNCHANGED <<prog, inp, L, nrow, ci, cj, cv, fr, order, bmask, dense, res, dn2>>
 
 \* line 78
 M2C_Return0 ==
     /\ pc = "m2c_ok"
     /\ L' = [L0 EXCEPT !.ret = 0] /\ pc' = "m2c_ret" /\ acc' = {}
-    /\ UNCHANGED <<prog, inp, nrow, ci, cj, cv, rowsdone, fr, order, bmask, dense, res>>
+    /\ UNCHANGED <<prog, inp, nrow, ci, cj, cv, rowsdone, fr, order, bmask, dense, res, dn2>>
 
 \* sparseframe.py:394-412 from_data_mask (called with nnz = (mask>0).sum(), so ret = 0; the
 \* Python code does not look at the return code: when ret # 0 only the kernel case is emitted)
@@ -363,7 +393,7 @@ FromDataMask ==
                                 Compress([p \in DOMAIN inp.msk |-> DataAt(p, inp.nf)],
                                          [p \in DOMAIN inp.msk |-> inp.msk[p] > 0])]]
     /\ acc' = {}
-    /\ UNCHANGED <<prog, inp, L, nrow, ci, cj, cv, rowsdone, order, bmask, dense, res>>
+    /\ UNCHANGED <<prog, inp, L, nrow, ci, cj, cv, rowsdone, order, bmask, dense, res, dn2>>
 
 -----------------------------------------------------------------------------
 (* tosparse_u16 / _f32 (nested, lines 906-921, 980-995) and tosparse_u32 (flat, 943-959).
@@ -386,26 +416,26 @@ TS_Keep ==      \* msk && img > cut
     /\ L' = TsAdvance([L EXCEPT !.k = L.k + 1])
     /\ acc' = {Acc("msk", TsP, TsExt), Acc("img", TsP, TsExt), Acc("row", L.k, TsExt),
                Acc("col", L.k, TsExt), Acc("val", L.k, TsExt)}
-    /\ UNCHANGED <<prog, pc, inp, nrow, rowsdone, fr, order, bmask, dense, res>>
+    /\ UNCHANGED <<prog, pc, inp, nrow, rowsdone, fr, order, bmask, dense, res, dn2>>
 
 TS_Masked ==    \* msk == 0 : img is not read (short circuit)
     /\ pc = "ts_loop" /\ TsMore
     /\ Rd(inp.msk, TsP) = 0
     /\ L' = TsAdvance(L)
     /\ acc' = {Acc("msk", TsP, TsExt)}
-    /\ UNCHANGED <<prog, pc, inp, nrow, ci, cj, cv, rowsdone, fr, order, bmask, dense, res>>
+    /\ UNCHANGED <<prog, pc, inp, nrow, ci, cj, cv, rowsdone, fr, order, bmask, dense, res, dn2>>
 
 TS_Below ==     \* msk != 0, img <= cut
     /\ pc = "ts_loop" /\ TsMore
     /\ Rd(inp.msk, TsP) # 0 /\ ~(Rd(inp.img, TsP) > inp.cut)
     /\ L' = TsAdvance(L)
     /\ acc' = {Acc("msk", TsP, TsExt), Acc("img", TsP, TsExt)}
-    /\ UNCHANGED <<prog, pc, inp, nrow, ci, cj, cv, rowsdone, fr, order, bmask, dense, res>>
+    /\ UNCHANGED <<prog, pc, inp, nrow, ci, cj, cv, rowsdone, fr, order, bmask, dense, res, dn2>>
 
 TS_Return ==
     /\ pc = "ts_loop" /\ ~TsMore
     /\ L' = [L0 EXCEPT !.ret = L.k] /\ pc' = "ts_ret" /\ acc' = {}
-    /\ UNCHANGED <<prog, inp, nrow, ci, cj, cv, rowsdone, fr, order, bmask, dense, res>>
+    /\ UNCHANGED <<prog, inp, nrow, ci, cj, cv, rowsdone, fr, order, bmask, dense, res, dn2>>
 
 \* sparseframe.py:415-433 from_data_cut: row.ravel()[:nnz].copy() ...; an empty selection makes
 \* sparse_frame.check raise (np.min of an empty array): outside the property's quantifier
@@ -418,7 +448,7 @@ FromDataCut ==
                       names |-> <<"intensity">>,
                       px |-> [nm \in {"intensity"} |-> [x \in 0..(L.ret - 1) |-> cv[x]]]]
     /\ acc' = {}
-    /\ UNCHANGED <<prog, inp, L, nrow, ci, cj, cv, rowsdone, order, bmask, dense, res>>
+    /\ UNCHANGED <<prog, inp, L, nrow, ci, cj, cv, rowsdone, order, bmask, dense, res, dn2>>
 
 -----------------------------------------------------------------------------
 (* sparse_is_sorted, sparse_image.c:118-143 ; i = ci, j = cj *)
@@ -427,7 +457,7 @@ IS_Start ==
     /\ pc = "is_start"
     /\ L' = [L EXCEPT !.es = inp.nnz + 1, !.ed = inp.nnz + 1, !.k = 1]
     /\ pc' = "is_loop" /\ acc' = {}
-    /\ UNCHANGED <<prog, inp, nrow, ci, cj, cv, rowsdone, fr, order, bmask, dense, res>>
+    /\ UNCHANGED <<prog, inp, nrow, ci, cj, cv, rowsdone, fr, order, bmask, dense, res, dn2>>
 
 Min2(a, b) == IF a < b THEN a ELSE b
 IsAcc(withj) == {Acc("i", L.k, inp.nnz), Acc("i", L.k - 1, inp.nnz)} \cup
@@ -438,21 +468,21 @@ IS_RowBack ==   \* i[k] < i[k-1]
     /\ Rd(ci, L.k) < Rd(ci, L.k - 1)
     /\ L' = [L EXCEPT !.es = Min2(L.k, L.es), !.k = L.k + 1]
     /\ acc' = IsAcc(FALSE)
-    /\ UNCHANGED <<prog, pc, inp, nrow, ci, cj, cv, rowsdone, fr, order, bmask, dense, res>>
+    /\ UNCHANGED <<prog, pc, inp, nrow, ci, cj, cv, rowsdone, fr, order, bmask, dense, res, dn2>>
 
 IS_ColBack ==   \* same row, j[k] < j[k-1]
     /\ pc = "is_loop" /\ L.k < inp.nnz
     /\ Rd(ci, L.k) = Rd(ci, L.k - 1) /\ Rd(cj, L.k) < Rd(cj, L.k - 1)
     /\ L' = [L EXCEPT !.es = Min2(L.k, L.es), !.k = L.k + 1]
     /\ acc' = IsAcc(TRUE)
-    /\ UNCHANGED <<prog, pc, inp, nrow, ci, cj, cv, rowsdone, fr, order, bmask, dense, res>>
+    /\ UNCHANGED <<prog, pc, inp, nrow, ci, cj, cv, rowsdone, fr, order, bmask, dense, res, dn2>>
 
 IS_Dup ==       \* same row, same column
     /\ pc = "is_loop" /\ L.k < inp.nnz
     /\ Rd(ci, L.k) = Rd(ci, L.k - 1) /\ Rd(cj, L.k) = Rd(cj, L.k - 1)
     /\ L' = [L EXCEPT !.ed = Min2(L.k, L.ed), !.k = L.k + 1]
     /\ acc' = IsAcc(TRUE)
-    /\ UNCHANGED <<prog, pc, inp, nrow, ci, cj, cv, rowsdone, fr, order, bmask, dense, res>>
+    /\ UNCHANGED <<prog, pc, inp, nrow, ci, cj, cv, rowsdone, fr, order, bmask, dense, res, dn2>>
 
 IS_Fine ==      \* same row and column ahead, or a later row
     /\ pc = "is_loop" /\ L.k < inp.nnz
@@ -460,14 +490,14 @@ IS_Fine ==      \* same row and column ahead, or a later row
        \/ Rd(ci, L.k) = Rd(ci, L.k - 1) /\ Rd(cj, L.k) > Rd(cj, L.k - 1)
     /\ L' = [L EXCEPT !.k = L.k + 1]
     /\ acc' = IsAcc(Rd(ci, L.k) = Rd(ci, L.k - 1))
-    /\ UNCHANGED <<prog, pc, inp, nrow, ci, cj, cv, rowsdone, fr, order, bmask, dense, res>>
+    /\ UNCHANGED <<prog, pc, inp, nrow, ci, cj, cv, rowsdone, fr, order, bmask, dense, res, dn2>>
 
 IS_Return ==
     /\ pc = "is_loop" /\ L.k >= inp.nnz
     /\ L' = [L EXCEPT !.ret = IF L.es = inp.nnz + 1 /\ L.ed = inp.nnz + 1 THEN 0
                                ELSE IF L.es > L.ed THEN -L.ed ELSE L.es]
     /\ pc' = "done" /\ acc' = {}
-    /\ UNCHANGED <<prog, inp, nrow, ci, cj, cv, rowsdone, fr, order, bmask, dense, res>>
+    /\ UNCHANGED <<prog, inp, nrow, ci, cj, cv, rowsdone, fr, order, bmask, dense, res, dn2>>
 
 -----------------------------------------------------------------------------
 (* sparse_frame.sort / sort_by / reorder, sparseframe.py:149-166 *)
@@ -478,41 +508,41 @@ Sort_Order ==   \* order = np.lexsort((col,row)) | np.argsort(pixels[name]) ; th
                 ELSE SortPermKey(fr.px["labels"])
     /\ pc' = IF FIXED THEN "re_row" ELSE "raised"     \* self.reorder(self, order) -> TypeError
     /\ acc' = {}
-    /\ UNCHANGED <<prog, inp, L, nrow, ci, cj, cv, rowsdone, fr, bmask, dense, res>>
+    /\ UNCHANGED <<prog, inp, L, nrow, ci, cj, cv, rowsdone, fr, bmask, dense, res, dn2>>
 
 Reorder_Row ==  \* self.row[:] = self.row[order]
     /\ pc = "re_row"
     /\ fr' = [fr EXCEPT !.row = Take(fr.row, order)]
     /\ pc' = "re_col" /\ acc' = {Acc("row", order[x], fr.nnz) : x \in DOMAIN order}
-    /\ UNCHANGED <<prog, inp, L, nrow, ci, cj, cv, rowsdone, order, bmask, dense, res>>
+    /\ UNCHANGED <<prog, inp, L, nrow, ci, cj, cv, rowsdone, order, bmask, dense, res, dn2>>
 
 Reorder_Col ==
     /\ pc = "re_col"
     /\ fr' = [fr EXCEPT !.col = Take(fr.col, order)]
     /\ pc' = "re_px" /\ L' = [L EXCEPT !.k = 1]
     /\ acc' = {Acc("col", order[x], fr.nnz) : x \in DOMAIN order}
-    /\ UNCHANGED <<prog, inp, nrow, ci, cj, cv, rowsdone, order, bmask, dense, res>>
+    /\ UNCHANGED <<prog, inp, nrow, ci, cj, cv, rowsdone, order, bmask, dense, res, dn2>>
 
 Reorder_Px ==   \* for name, px in self.pixels.items(): px[:] = px[order]
     /\ pc = "re_px" /\ L.k <= Size(fr.names)
     /\ fr' = [fr EXCEPT !.px[fr.names[L.k]] = Take(fr.px[fr.names[L.k]], order)]
     /\ L' = [L EXCEPT !.k = L.k + 1]
     /\ acc' = {Acc("px", order[x], fr.nnz) : x \in DOMAIN order}
-    /\ UNCHANGED <<prog, pc, inp, nrow, ci, cj, cv, rowsdone, order, bmask, dense, res>>
+    /\ UNCHANGED <<prog, pc, inp, nrow, ci, cj, cv, rowsdone, order, bmask, dense, res, dn2>>
 
 Reorder_Done ==
     /\ pc = "re_px" /\ L.k > Size(fr.names)
     /\ pc' = "td_start" /\ acc' = {}
-    /\ UNCHANGED <<prog, inp, L, nrow, ci, cj, cv, rowsdone, fr, order, bmask, dense, res>>
+    /\ UNCHANGED <<prog, inp, L, nrow, ci, cj, cv, rowsdone, fr, order, bmask, dense, res, dn2>>
 
 -----------------------------------------------------------------------------
 (* sparse_frame.threshold / mask, sparseframe.py:128-139,168-172 *)
 
 Th_Compare ==   \* self.pixels[name] > threshold
     /\ pc = "th_cmp"
-    /\ bmask' = [x \in DOMAIN fr.row |-> fr.px["intensity"][x] > inp.t]
+    /\ bmask' = [x \in DOMAIN fr.row |-> fr.px[inp.name][x] > inp.t]
     /\ pc' = "th_mask" /\ acc' = {}
-    /\ UNCHANGED <<prog, inp, L, nrow, ci, cj, cv, rowsdone, fr, order, dense, res>>
+    /\ UNCHANGED <<prog, inp, L, nrow, ci, cj, cv, rowsdone, fr, order, dense, res, dn2>>
 
 Th_Mask ==      \* sparse_frame(self.row[msk], self.col[msk], ...) ; set_pixels(name, px[msk])
     /\ pc = "th_mask"
@@ -521,19 +551,25 @@ Th_Mask ==      \* sparse_frame(self.row[msk], self.col[msk], ...) ; set_pixels(
                         !.nnz = Size(Compress(fr.row, bmask)),
                         !.px = [nm \in DOMAIN fr.px |-> Compress(fr.px[nm], bmask)]]
     /\ pc' = "td_start" /\ acc' = {}
-    /\ UNCHANGED <<prog, inp, L, nrow, ci, cj, cv, rowsdone, order, bmask, dense, res>>
+    /\ UNCHANGED <<prog, inp, L, nrow, ci, cj, cv, rowsdone, order, bmask, dense, res, dn2>>
 
 Th_Empty ==     \* nothing above threshold: sparse_frame.check raises; outside the quantifier
     /\ pc = "th_mask"
     /\ ~(\E x \in DOMAIN bmask : bmask[x])
     /\ pc' = "done" /\ acc' = {}
-    /\ UNCHANGED <<prog, inp, L, nrow, ci, cj, cv, rowsdone, fr, order, bmask, dense, res>>
+    /\ UNCHANGED <<prog, inp, L, nrow, ci, cj, cv, rowsdone, fr, order, bmask, dense, res, dn2>>
 
 -----------------------------------------------------------------------------
 (* sparse_frame.to_dense, sparseframe.py:103-126.  `data` is: the named array (program m2c
-   calls to_dense("intensity")), the only array (programs cut / thresh call to_dense()), or a
-   boolean mask of ones when several arrays exist and none is named (program sort).
-   scipy's coo -> dense conversion adds data[k] at (row[k], col[k]).                       *)
+   calls to_dense("intensity")), the only array (programs cut / thresh call to_dense()), a
+   boolean mask of ones when several arrays exist and none is named (program sort, thresh with
+   two arrays), or - second pass TD2_*, every program - "a 1D array matching self.nnz" handed
+   over by the caller (the docstring's example obj.to_dense(obj.pixels['raw_intensity']); the
+   programs pass the frame's intensity array).  With TDFIXED = FALSE the second pass is what the
+   tree does: `data in self.pixels` hashes the array and raises TypeError.
+   scipy's coo -> dense conversion adds data[k] at (row[k], col[k]); `out` is np.zeros(shape) or
+   the caller's array, which scipy's todense(out=) fills with zeros first: dense' = Arr(.., 0)
+   stands for both (the harness hands over arrays full of a poison value).                  *)
 
 TD_Start ==
     /\ pc = "td_start"
@@ -543,7 +579,7 @@ TD_Start ==
     /\ dense' = Arr(fr.shape[1] * fr.shape[2], 0)
     /\ L' = [L EXCEPT !.k = 0]
     /\ pc' = "td_loop" /\ acc' = {}
-    /\ UNCHANGED <<prog, inp, nrow, ci, cj, cv, rowsdone, fr, order, bmask>>
+    /\ UNCHANGED <<prog, inp, nrow, ci, cj, cv, rowsdone, fr, order, bmask, dn2>>
 
 TD_Add ==
     /\ pc = "td_loop" /\ L.k < fr.nnz
@@ -554,12 +590,36 @@ TD_Add ==
                    \* the column must be inside the row as well (a flat index could hide it)
                    Acc("outcol", Rd(fr.col, L.k), fr.shape[2])}
     /\ L' = [L EXCEPT !.k = L.k + 1]
-    /\ UNCHANGED <<prog, pc, inp, nrow, ci, cj, cv, rowsdone, fr, order, bmask, res>>
+    /\ UNCHANGED <<prog, pc, inp, nrow, ci, cj, cv, rowsdone, fr, order, bmask, res, dn2>>
 
 TD_Done ==
     /\ pc = "td_loop" /\ L.k >= fr.nnz
+    /\ pc' = "td2_start" /\ acc' = {}
+    /\ UNCHANGED <<prog, inp, L, nrow, ci, cj, cv, rowsdone, fr, order, bmask, dense, res, dn2>>
+
+\* second pass: to_dense(self.pixels["intensity"]) - the array itself, not its name
+TD2_Start ==
+    /\ pc = "td2_start"
+    /\ IF TDFIXED
+       THEN /\ res' = fr.px["intensity"] /\ dn2' = Arr(fr.shape[1] * fr.shape[2], 0)
+            /\ L' = [L EXCEPT !.k = 0] /\ pc' = "td2_loop"
+       ELSE /\ pc' = "td_raised" /\ UNCHANGED <<res, dn2, L>>
+    /\ acc' = {}
+    /\ UNCHANGED <<prog, inp, nrow, ci, cj, cv, rowsdone, fr, order, bmask, dense>>
+
+TD2_Add ==
+    /\ pc = "td2_loop" /\ L.k < fr.nnz
+    /\ LET a == Rd(fr.row, L.k) * fr.shape[2] + Rd(fr.col, L.k) IN
+        /\ dn2' = Wr(dn2, a, Rd(dn2, a) + Rd(res, L.k))
+        /\ acc' = {Acc("row", L.k, fr.nnz), Acc("col", L.k, fr.nnz), Acc("data", L.k, Size(res)),
+                   Acc("out", a, fr.shape[1] * fr.shape[2]), Acc("outcol", Rd(fr.col, L.k), fr.shape[2])}
+    /\ L' = [L EXCEPT !.k = L.k + 1]
+    /\ UNCHANGED <<prog, pc, inp, nrow, ci, cj, cv, rowsdone, fr, order, bmask, dense, res>>
+
+TD2_Done ==
+    /\ pc = "td2_loop" /\ L.k >= fr.nnz
     /\ pc' = "done" /\ acc' = {}
-    /\ UNCHANGED <<prog, inp, L, nrow, ci, cj, cv, rowsdone, fr, order, bmask, dense, res>>
+    /\ UNCHANGED <<prog, inp, L, nrow, ci, cj, cv, rowsdone, fr, order, bmask, dense, res, dn2>>
 
 -----------------------------------------------------------------------------
 Next ==
@@ -570,7 +630,7 @@ Next ==
     \/ IS_Start \/ IS_RowBack \/ IS_ColBack \/ IS_Dup \/ IS_Fine \/ IS_Return
     \/ Sort_Order \/ Reorder_Row \/ Reorder_Col \/ Reorder_Px \/ Reorder_Done
     \/ Th_Compare \/ Th_Mask \/ Th_Empty
-    \/ TD_Start \/ TD_Add \/ TD_Done
+    \/ TD_Start \/ TD_Add \/ TD_Done \/ TD2_Start \/ TD2_Add \/ TD2_Done
 
 Spec == Init /\ [][Next]_vars
 
@@ -593,6 +653,7 @@ RoundTrip ==
     (HasFrame /\ prog \in {"m2c", "cut"}) =>
         /\ fr.nnz = Cardinality(SelSet)
         /\ dense = [p \in 0..(Npix - 1) |-> IF Selected(p) THEN SrcAt(p) ELSE 0]
+        /\ dn2 = dense                            \* the array route gives the same image
         /\ \A x \in DOMAIN fr.row :
               fr.px["intensity"][x] = SrcAt(fr.row[x] * inp.nf + fr.col[x])
 
@@ -623,6 +684,7 @@ IsSortedSpec ==
 Triples(f) == {<<f.row[x], f.col[x], f.px["intensity"][x], f.px["labels"][x]>> : x \in DOMAIN f.row}
 
 SortTotal == pc # "raised"
+DenseTotal == pc # "td_raised"      \* to_dense(<array>) returns
 
 SortOK ==
     (prog = "sort" /\ pc = "done") =>
@@ -633,11 +695,21 @@ SortOK ==
         /\ inp.how = "sort" => StrictRowMajor(fr.row, fr.col)
         /\ inp.how = "sort_by" => \A x \in DOMAIN fr.row : x > 0 => fr.px["labels"][x - 1] <= fr.px["labels"][x]
         /\ dense = [p \in 0..(Npix - 1) |-> IF \E x \in DOMAIN inp.perm : inp.perm[x] = p THEN 1 ELSE 0]
+        \* values stay attached: the intensity array of the re-ordered frame paints the test image
+        /\ dn2 = [p \in 0..(Npix - 1) |-> IF \E x \in DOMAIN inp.perm : inp.perm[x] = p THEN DataAt(p, inp.nf) ELSE 0]
 
+\* threshold(t, name): the pixels of the frame (img > 0) whose array `name` exceeds t
+ThKey(p) == IF inp.name = "intensity" THEN inp.img[p] ELSE LabAt(p)
+ThSel(p) == inp.img[p] > 0 /\ ThKey(p) > inp.t
 ThreshOK ==
     (prog = "thresh" /\ HasFrame /\ ~IsNone(bmask) /\ \E x \in DOMAIN bmask : bmask[x]) =>
-        /\ dense = [p \in 0..(Npix - 1) |-> IF inp.img[p] > inp.t THEN inp.img[p] ELSE 0]
-        /\ fr.nnz = Cardinality({p \in 0..(Npix - 1) : inp.img[p] > inp.t})
+        \* one array: to_dense() paints it; two arrays: to_dense() is the boolean mask of the frame
+        /\ dense = [p \in 0..(Npix - 1) |-> IF ThSel(p) THEN (IF inp.name = "intensity" THEN inp.img[p] ELSE 1) ELSE 0]
+        /\ dn2 = [p \in 0..(Npix - 1) |-> IF ThSel(p) THEN inp.img[p] ELSE 0]
+        /\ fr.nnz = Cardinality({p \in 0..(Npix - 1) : ThSel(p)})
+        /\ \A x \in DOMAIN fr.row : \A nm \in DOMAIN fr.px :      \* every array stays attached to its pixel
+              fr.px[nm][x] = IF nm = "intensity" THEN inp.img[fr.row[x] * inp.nf + fr.col[x]]
+                             ELSE LabAt(fr.row[x] * inp.nf + fr.col[x])
 
 \* ---- emission of cases -------------------------------------------------------------------
 FrameJson(f) == [shape |-> f.shape, nnz |-> f.nnz, row |-> AsSeq(f.row), col |-> AsSeq(f.col),
@@ -648,24 +720,27 @@ Case ==
             [prog |-> "m2c", ns |-> inp.ns, nf |-> inp.nf, msk |-> AsSeq(inp.msk), nnz |-> inp.nnz,
              ret |-> L.ret, i |-> AsSeq(ci), j |-> AsSeq(cj), w |-> AsSeq(nrow),
              frame |-> IF IsNone(fr) THEN <<>> ELSE <<FrameJson(fr)>>,
-             dense |-> IF IsNone(dense) THEN <<>> ELSE AsSeq(dense)]
+             dense |-> IF IsNone(dense) THEN <<>> ELSE AsSeq(dense),
+             dense2 |-> IF IsNone(dn2) THEN <<>> ELSE AsSeq(dn2)]
       [] prog = "cut" ->
             [prog |-> "cut", ns |-> inp.ns, nf |-> inp.nf, img |-> AsSeq(inp.img), msk |-> AsSeq(inp.msk),
              cut |-> inp.cut, style |-> inp.style, ret |-> L.ret,
              row |-> AsSeq(ci), col |-> AsSeq(cj), val |-> AsSeq(cv),
              frame |-> IF IsNone(fr) THEN <<>> ELSE <<FrameJson(fr)>>,
-             dense |-> IF IsNone(dense) THEN <<>> ELSE AsSeq(dense)]
+             dense |-> IF IsNone(dense) THEN <<>> ELSE AsSeq(dense),
+             dense2 |-> IF IsNone(dn2) THEN <<>> ELSE AsSeq(dn2)]
       [] prog = "sorted" ->
             [prog |-> "sorted", nnz |-> inp.nnz, i |-> AsSeq(ci), j |-> AsSeq(cj), ret |-> L.ret]
       [] prog = "sort" ->
             [prog |-> "sort", ns |-> inp.ns, nf |-> inp.nf, how |-> inp.how,
              frame0 |-> FrameJson(inp.frame), order |-> AsSeq(order), frame |-> <<FrameJson(fr)>>,
-             dense |-> AsSeq(dense)]
+             dense |-> AsSeq(dense), dense2 |-> AsSeq(dn2)]
       [] prog = "thresh" ->
-            [prog |-> "thresh", ns |-> inp.ns, nf |-> inp.nf, t |-> inp.t,
+            [prog |-> "thresh", ns |-> inp.ns, nf |-> inp.nf, t |-> inp.t, name |-> inp.name,
              frame0 |-> FrameJson(inp.frame),
              frame |-> IF IsNone(dense) THEN <<>> ELSE <<FrameJson(fr)>>,
-             dense |-> IF IsNone(dense) THEN <<>> ELSE AsSeq(dense)]
+             dense |-> IF IsNone(dense) THEN <<>> ELSE AsSeq(dense),
+             dense2 |-> IF IsNone(dn2) THEN <<>> ELSE AsSeq(dn2)]
 
 Emit == pc = "done" => PrintT("@@" \o ToJson(Case))
 
